@@ -208,7 +208,26 @@ def check_widths(case):
     return bad, 1
 
 
-CHECK = dict(findpeaks=check_findpeaks, merge=check_merge, sma=check_sma, iof=check_iof, split=check_split, sumwf=check_sumwf,
+def check_hdr(case):
+    bad = []
+    w = case["w"]
+    fr = np.array([float(Fraction(a, b)) for a, b in case["fracs"]])
+    try:
+        res, amp = strax.highest_density_region(np.array(w, dtype=np.float64), fr)
+        got = []
+        for k in range(len(fr)):
+            iv = [[int(l), int(r)] for l, r in zip(res[k, 0], res[k, 1]) if r > l]
+            got.append((iv, float(amp[k])))
+    except Exception as e:  # noqa
+        got = repr(e)[:150]
+    want = [([list(x) for x in lst(e["intervals"])], float(Fraction(e["amp"][0], e["amp"][1]))) for e in case["hdr"]]
+    ok = isinstance(got, list) and all(g[0] == x[0] and abs(g[1] - x[1]) < 1e-4 for g, x in zip(got, want))
+    if not ok:
+        bad.append((f"highest_density_region:{w}", f"highest_density_region({w}, {case['fracs']}) = {got}, definition {want}"))
+    return bad, 1
+
+
+CHECK = dict(hdr=check_hdr, findpeaks=check_findpeaks, merge=check_merge, sma=check_sma, iof=check_iof, split=check_split, sumwf=check_sumwf,
              widths=check_widths)
 
 
@@ -229,7 +248,7 @@ def run(chk):
     scopes = [dict(G=4 if quick else 5, NH=3, Kind="findpeaks"), dict(G=5 if quick else 6, NH=3 if quick else 4, Kind="merge"),
               dict(G=0, NH=5 if quick else 7, Kind="sma"), dict(G=0, NH=5 if quick else 6, Kind="iof"),
               dict(G=0, NH=5 if quick else 7, Kind="split"), dict(G=0, NH=4 if quick else 5, Kind="sumwf"),
-              dict(G=0, NH=5 if quick else 6, Kind="widths")]
+              dict(G=0, NH=5 if quick else 6, Kind="widths"), dict(G=0, NH=5 if quick else 6, Kind="hdr")]
     split_obs = []
     for sc in scopes:
         r, cases = V.tlc_cases("Peaks", sc, ["Laws", "Emit"], timeout=3000, workers=1)
@@ -284,7 +303,7 @@ def run(chk):
                 "natural-breaks splitting; every pair of short records (two channels) x every peak window x three buffer sizes for the summed "
                 "waveform and its down-sampling; non-trivial = more than one hit / sample")
     chk.assumptions += ["not covered by the specification: the value of natural_breaks_gof (float computation; only the tiling of its splits is "
-                        "decided), highest_density_region", "floats compared with tolerance 1e-4 (float32 fields) / 1e-9 (float64)"]
+                        "decided), highest_density_region with only_upper_part=True", "floats compared with tolerance 1e-4 (float32 fields) / 1e-9 (float64)"]
 
 
 def replay(chk, path):
